@@ -62,13 +62,28 @@ class StepTable:
             if pb is None or pb.kind in ("Fn", "AssocFn"):
                 break
             outer = pb
+        # ... and when the look-up lives in a private helper that emits nothing itself (`find_and_exec_step().await`), for the routine
+        # that awaits it and sends the step's events
+        for _ in range(2):
+            root_fn = F.root_fn(outer)
+            if roles.reaches_send(F, root_fn):
+                break
+            callers = [site.body for site in F.callers_of(root_fn) if site.body.key in {b.key for b in tree}]
+            if len(callers) != 1:
+                break
+            outer = callers[0]
+            while True:
+                pb = F.parent_body(outer)
+                if pb is None or pb.kind in ("Fn", "AssocFn"):
+                    break
+                outer = pb
         self.body = outer if outer.is_coroutine else self.block
         # the threaded World: the routine's captured `Option<W>` parameter
         self.world_opt_term = None
         for i in self.body.upvar_names():
             if "Option<W>" in self._upvar_ty(i):
                 self.world_opt_term = ("field", ("arg", 1), i)
-        self.paths = D.Deep(F, self.body, opaque=FIND_RX + r"|wait_for_span_close$|_span$|unbounded_send$", max_paths=8000).run()
+        self.paths = D.Deep(F, self.body, opaque=FIND_RX + r"|wait_for_span_close$|::(step|hook|scenario)_span$|unbounded_send$", max_paths=8000).run()
         if not self.paths or any(p.cut for p in self.paths):
             raise Unverifiable("step routine: empty path table or a loop")
         self.rows = [self.classify(p) for p in self.paths]
